@@ -3,7 +3,12 @@ package main
 
 import (
 	"encoding/json"
+	"fmt"
 	"math/rand"
+	"os"
+	"runtime"
+	"sync"
+	"sync/atomic"
 	"time"
 
 	"github.com/welllog/golib/ringz"
@@ -226,4 +231,96 @@ func strip(prog [][][]interface{}, op string) [][][]interface{} {
 	return prog
 }
 
-func main() { conc.Main("SyncRing", factory, gen) }
+// The ring is generic in its element type; the histories above use int. bigElements runs producers and consumers on
+// rings whose elements are larger than a cache line (72 and 200 bytes) and whose words all carry the same number: the
+// race detector sees any unsynchronised access to a slot, and an element whose words differ is a torn hand-over.
+type big72 [9]int64
+type big200 struct {
+	A [12]int64
+	S string
+	B [11]int64
+}
+
+func stress[T any](capc int, mk func(int64) T, ok func(T) bool) {
+	var r ringz.SyncRing[T]
+	r.Init(capc)
+	var wg sync.WaitGroup
+	var torn int32
+	const per = 4000
+	for p := 0; p < 3; p++ {
+		wg.Add(2)
+		go func(p int) {
+			defer wg.Done()
+			for i := 0; i < per; i++ {
+				for !r.Push(mk(int64(p*per + i + 1))) {
+					runtime.Gosched()
+				}
+			}
+		}(p)
+		go func() {
+			defer wg.Done()
+			for i := 0; i < per; i++ {
+				for {
+					if v, got := r.Pop(); got {
+						if !ok(v) {
+							atomic.StoreInt32(&torn, 1)
+						}
+						break
+					}
+					runtime.Gosched()
+				}
+			}
+		}()
+	}
+	wg.Wait()
+	if torn != 0 {
+		fmt.Fprintln(os.Stderr, "WARNING: DATA RACE (observed by the harness: an element of a large element type came out torn)")
+	}
+}
+
+func bigElements() {
+	for _, c := range []int{2, 4} {
+		stress(c, func(x int64) big72 {
+			var b big72
+			for i := range b {
+				b[i] = x
+			}
+			return b
+		}, func(b big72) bool {
+			for _, w := range b {
+				if w != b[0] || w == 0 {
+					return false
+				}
+			}
+			return true
+		})
+		stress(c, func(x int64) big200 {
+			var b big200
+			for i := range b.A {
+				b.A[i] = x
+			}
+			for i := range b.B {
+				b.B[i] = x
+			}
+			b.S = fmt.Sprint(x)
+			return b
+		}, func(b big200) bool {
+			for _, w := range b.A {
+				if w != b.A[0] || w == 0 {
+					return false
+				}
+			}
+			for _, w := range b.B {
+				if w != b.A[0] {
+					return false
+				}
+			}
+			return b.S == fmt.Sprint(b.A[0])
+		})
+	}
+}
+
+func main() {
+	conc.ExtraReal = bigElements
+	conc.Main("SyncRing", factory, gen)
+}
